@@ -536,6 +536,14 @@ def generate(seed, features=None, size="s", opt=None, tries=30, accept=None):
       continue
     if mjm.nv == 0:
       continue
+    if mjm.ntendon:
+      # a tendon whose length no joint can change (both sites on bodies that are rigid relative to each other) has a Jacobian that is
+      # pure round-off; a limit or equality row on it gets D = 1e15 and the row force is round-off times 1e15 in either engine: degenerate
+      _d = mujoco.MjData(mjm)
+      mujoco.mj_forward(mjm, _d)
+      _J = np.asarray(_d.ten_J).reshape(mjm.ntendon, -1) if np.asarray(_d.ten_J).size == mjm.ntendon * mjm.nv else None
+      if _J is not None and np.any(np.abs(_J).max(axis=1) < 1e-9):
+        continue
     if g.ft["keyframes"]:
       kf = _keyframes(_rng.gen("key", seed, t), mjm, int(g.r.integers(1, 4)))
       xml2 = xml.replace("</mujoco>", f"  <keyframe>\n{kf}  </keyframe>\n</mujoco>")
